@@ -256,7 +256,7 @@ func verifC27Exec(op string) string {
 		err := s.rec.Write(recorder.VerifSample{
 			Track: verifutil.Atoi(f[1]), DTS: verifutil.AtoI64(f[2]),
 			NTP:     verifC27Epoch.Add(time.Duration(verifutil.AtoI64(f[3])) * time.Millisecond),
-			NonSync: f[4] == "n", Payload: pl,
+			NonSync: f[4] == "n", Payload: pl, ParamsChange: f[4] == "K",
 		})
 		_ = err
 		return verifC27Disk()
@@ -544,6 +544,8 @@ func verifC27GenMode(r *verifutil.Rand, i int, thorough bool, plain bool) []stri
 		flag := "k"
 		if t.video && t.n%t.gop != 0 {
 			flag = "n"
+		} else if gated && t.video && t.n > 0 && r.Chance(1, 4) {
+			flag = "K" // key frame carrying NEW codec parameters (sequence header changes mid-recording)
 		}
 		dts := t.dts
 		switch {
